@@ -257,6 +257,58 @@ def ca2(repo: Repo) -> RuleResult:
     return res
 
 
+def fold_c(e: Node, env: Dict[str, int], funcs: Dict[str, Node], depth: int = 0) -> Optional[int]:
+    """Constant folding of a side-effect free C condition over given integer
+    values of its variables; predicate helpers (single return) are inlined."""
+    k = e.k
+    if k == "int":
+        return e.v
+    if k == "id":
+        return env.get(e.name)
+    if k in ("paren", "conv"):
+        return fold_c(e.x, env, funcs, depth)
+    if k == "un":
+        v = fold_c(e.x, env, funcs, depth)
+        if v is None:
+            return None
+        return {"!": int(not v), "-": -v, "+": v}.get(e.op)
+    if k == "bin":
+        if e.op == "&&":
+            l = fold_c(e.l, env, funcs, depth)
+            if l is not None and not l:
+                return 0
+            r = fold_c(e.r, env, funcs, depth)
+            return None if l is None or r is None else int(bool(l) and bool(r))
+        if e.op == "||":
+            l = fold_c(e.l, env, funcs, depth)
+            if l:
+                return 1
+            r = fold_c(e.r, env, funcs, depth)
+            return None if l is None or r is None else int(bool(l) or bool(r))
+        l, r = fold_c(e.l, env, funcs, depth), fold_c(e.r, env, funcs, depth)
+        if l is None or r is None:
+            return None
+        try:
+            return int({"==": l == r, "!=": l != r, "<": l < r, "<=": l <= r, ">": l > r, ">=": l >= r, "+": l + r, "-": l - r, "*": l * r, "%": l % r if r else None, "&": l & r, "|": l | r, "<<": l << r, ">>": l >> r}[e.op])
+        except (KeyError, TypeError):
+            return None
+    if k == "call" and e.f.k == "id" and e.f.name in funcs and depth < 3:
+        fn = funcs[e.f.name]
+        rets = [s for s in fn.body.stmts if s.k == "return"]
+        if len(rets) != 1 or len(fn.body.stmts) != 1:
+            return None
+        args = [fold_c(a, env, funcs, depth) for a in e.args]
+        if any(a is None for a in args):
+            return None
+        return fold_c(rets[0].vals[0], {p.name: a for p, a in zip(fn.params, args)}, funcs, depth + 1)
+    if k == "cond":
+        c = fold_c(e.c, env, funcs, depth)
+        if c is None:
+            return None
+        return fold_c(e.a if c else e.b, env, funcs, depth)
+    return None
+
+
 def _handler(kind: str, cls: str) -> Optional[List[str]]:
     base = cls in ("Bool", "Uint", "Byte", "Enum")
     if kind == "endecode":
@@ -500,9 +552,32 @@ def ec2(repo: Repo) -> RuleResult:
                 fd.part = "c-be"
                 res.bad(fd)
         else:
-            t = txt(cond)
-            if t not in ("BpIsNbitsStandardelement_nbits&&BpIsBaseIntegerTypeflag||BpIsBaseIntegerTypeto_flag",):
-                res.unsure(f"EC2[le]: batch condition `{go_src(cond)}` is not the enumerated form")
+            # fold the condition over the finite domain (flag, to_flag, element_nbits)
+            F = flags
+            base_int = {F["BP_TYPE_BYTE"], F["BP_TYPE_UINT"], F["BP_TYPE_ENUM"], F["BP_TYPE_INT"]}
+            elem_flags = [F[k] for k in ("BP_TYPE_BOOL", "BP_TYPE_INT", "BP_TYPE_UINT", "BP_TYPE_BYTE", "BP_TYPE_ENUM", "BP_TYPE_ALIAS", "BP_TYPE_MESSAGE")]
+            alias_targets = [F[k] for k in ("BP_TYPE_BOOL", "BP_TYPE_INT", "BP_TYPE_UINT", "BP_TYPE_BYTE", "BP_TYPE_ARRAY")]
+            byv = {v: k for k, v in F.items()}
+            undecided = False
+            wrong = []
+            for fl in elem_flags:
+                for tf in (alias_targets if fl == F["BP_TYPE_ALIAS"] else [0]):
+                    for nb in list(range(1, 65)) + [128, 256]:
+                        v = fold_c(cond, {"flag": fl, "to_flag": tf, "element_nbits": nb}, c.funcs)
+                        if v is None:
+                            undecided = True
+                            break
+                        if v:
+                            leaf = tf if fl == F["BP_TYPE_ALIAS"] else fl
+                            if leaf not in base_int or nb not in (8, 16, 32, 64):
+                                wrong.append((byv.get(fl, fl), byv.get(tf, tf) if tf else "-", nb))
+            if undecided:
+                res.unsure(f"EC2[le]: batch condition `{go_src(cond)}` cannot be folded over (flag, to_flag, element_nbits)")
+            elif wrong:
+                ex = wrong[0]
+                fd = Finding("EC2", C_RT, big[0].line, "BpEndecodeArray", go_src(cond), f"the contiguous batch copy is taken for element flag={ex[0]}, to_flag={ex[1]}, element_nbits={ex[2]} ({len(wrong)} such combinations): that memory is not a packed run of storage-sized integers", witness="type Flags = bool[8]; Flags[3] f  (an alias of an array whose row is 8 bits): the bools' storage bytes are bit-copied as if packed", tag="c:batch:condition")
+                fd.part = "c-le"
+                res.bad(fd)
             # helper predicates
             ns = c.func("BpIsNbitsStandard")
             lits = sorted(x.r.v for x in walk(ns) if x.get("k") == "bin" and x.get("op") == "==" and x.r.k == "int")
